@@ -130,7 +130,8 @@ func fixIns(ins *x86asm.Inst, pos int, block []byte, blockSize int,
 		result := bytecode.EncodeAddress(block[pos:offset],
 			block[offset:offset+ins.PCRel], ins.PCRel, addr, (int)(from)-(int)(trampoline))
 		if len(result) > ins.PCRel {
-			return result
+			// 相对地址之后可能还有立即数(比如 CMPB $0x0, 0x123(RIP)), 需要原样保留
+			return append(result, block[offset+ins.PCRel:pos+ins.Len]...)
 		}
 	} else {
 		if ins.Op.String() == bytecode.CallInsName {
